@@ -104,3 +104,30 @@ package standard
 //@   assumes call GenesisDomain#1 (d, err): d == genesisDomainFor(arg1)
 //@   at call sign#1: assert arg2 == account && arg4 == genesisDomainFor(deref(s.applicationBuilderDomainType))
 //@ spec func genesisDomainFor(domainType phase0.DomainType) phase0.Domain
+
+//@ // ---- C04 / C06: the batch of attestation signatures keeps every account with its own committee index ----
+//@ // the batch is split into ordinary and distributed accounts; position k of either part is the account of the original
+//@ // position recorded for k, asked to sign over the committee index of that same original position
+//@ func (*Service).SignBeaconAttestations
+//@   requires s != nil && len(committeeIndices) == len(accounts)
+//@   assumes call Domain#1 (d, err): d == domainFor(arg1, arg2)
+//@   at call Domain#1: assert arg1 == s.beaconAttesterDomainType && arg2 == slot / s.slotsPerEpoch
+//@   loop 1
+//@     invariant -1 <= rangeindex && rangeindex < len(accounts) && accountSigMap != nil && distributedAccountSigMap != nil
+//@     invariant len(signingAccounts) == len(accountCommitteeIndices) && len(signingDistributedAccounts) == len(distributedAccountCommitteeIndices)
+//@     // the two parts are built in separate arrays
+//@     invariant !samearray(signingAccounts, signingDistributedAccounts) && !samearray(accountCommitteeIndices, distributedAccountCommitteeIndices) && accountSigMap != distributedAccountSigMap
+//@     invariant forall k int :: 0 <= k && k < len(signingAccounts) ==> 0 <= accountSigMap[k] && accountSigMap[k] <= rangeindex
+//@     invariant forall k int :: 0 <= k && k < len(signingAccounts) ==> signingAccounts[k] == accounts[accountSigMap[k]]
+//@     invariant forall k int :: 0 <= k && k < len(signingAccounts) ==> accountCommitteeIndices[k] == committeeIndices[accountSigMap[k]]
+//@     invariant forall k int :: 0 <= k && k < len(signingDistributedAccounts) ==> 0 <= distributedAccountSigMap[k] && distributedAccountSigMap[k] <= rangeindex
+//@     invariant forall k int :: 0 <= k && k < len(signingDistributedAccounts) ==> signingDistributedAccounts[k] == accounts[distributedAccountSigMap[k]]
+//@     invariant forall k int :: 0 <= k && k < len(signingDistributedAccounts) ==> distributedAccountCommitteeIndices[k] == committeeIndices[distributedAccountSigMap[k]]
+//@   at call signBeaconAttestations#1: assert len(arg2) == len(arg4) && (forall k int :: 0 <= k && k < len(arg2) ==> 0 <= accountSigMap[k] && accountSigMap[k] < len(accounts) && arg2[k] == accounts[accountSigMap[k]] && arg4[k] == committeeIndices[accountSigMap[k]])
+//@   at call signBeaconAttestations#2: assert len(arg2) == len(arg4) && (forall k int :: 0 <= k && k < len(arg2) ==> 0 <= distributedAccountSigMap[k] && distributedAccountSigMap[k] < len(accounts) && arg2[k] == accounts[distributedAccountSigMap[k]] && arg4[k] == committeeIndices[distributedAccountSigMap[k]])
+//@   at call signBeaconAttestations: assert arg3 == slot && arg5 == blockRoot && arg6 == sourceEpoch && arg7 == sourceRoot && arg8 == targetEpoch && arg9 == targetRoot && arg10 == domainFor(s.beaconAttesterDomainType, slot / s.slotsPerEpoch)
+//@ // one signature per account handed in (the signatures of a multi-signer are copied by position into a slice of
+//@ // that length; that a multi-signer returns no more signatures than accounts is not decided here)
+//@ func (*Service).signBeaconAttestations
+//@   requires s != nil && len(committeeIndices) == len(accounts)
+//@   ensures result1 == nil ==> len(result0) == len(accounts)
